@@ -10,10 +10,10 @@ HARNESS = "c01"
 LEAN_MODULES = ["NanoVerif.Props.C01"]
 NS = "NanoVerif.Solver."
 OBLIGATIONS = [NS + t for t in [
-    "converged_truthful", "converged_truthful_gd", "converged_truthful_cgd", "converged_truthful_lbfgs",
-    "converged_truthful_quasi", "twoloop_descent", "direction_is_descent_lbfgs", "direction_is_descent_quasi",
-    "direction_is_descent_cgd", "direction_is_descent_gd", "bfgs_update_secant", "strongly_convex_gradient_bound",
-    "strongly_convex_accuracy",
+    "converged_truthful", "converged_truthful_lt", "converged_truthful_gd", "converged_truthful_cgd", "converged_truthful_lbfgs",
+    "converged_truthful_quasi", "converged_components", "twoloop_descent", "direction_is_descent_lbfgs",
+    "direction_is_descent_quasi", "direction_is_descent_cgd", "direction_is_descent_gd", "bfgs_update_secant",
+    "strongly_convex_gradient_bound", "strongly_convex_accuracy",
 ]]
 TRUSTED = [
     "Lean 4.33.0 kernel + the Mathlib modules imported by Proofs/Solver*.lean and Props/C01.lean (Algebra.Order.Field.Basic, "
